@@ -161,10 +161,30 @@ def add_annotations(rng, case, with_cites):
 
 
 def check_case(ctx, case):
+    impl.FAULT_EXC[0] = KeyboardInterrupt if case.get("interrupt") else None
+    try:
+        _check_case(ctx, case)
+    finally:
+        impl.FAULT_EXC[0] = None
+
+
+def _check_case(ctx, case):
     op = asm.asm_op(case)
     ents = impl.build_entities(op[3], op[4])
     vec, ms, objs = ents
     recs = [vec.record] + [m.record for m in ms]
+
+    def scalar(entities):
+        # a /citation qualifier given as one string instead of a list of strings (the GenBank writer takes both)
+        if case.get("scalar_citation"):
+            for e_ in [entities[0]] + list(entities[1]):
+                for f_ in e_.record.features:
+                    c_ = f_.qualifiers.get("citation")
+                    if isinstance(c_, list) and len(c_) == 1 and isinstance(c_[0], str):
+                        f_.qualifiers["citation"] = c_[0]
+                        break
+        return entities
+    scalar(ents)
     before = [deep_snapshot(r) for r in recs]
     replies = []
     for call in range(case.get("calls", 2)):
@@ -180,7 +200,7 @@ def check_case(ctx, case):
                 call + 1, case.get("mode"), replies[-1][:2], names[part], recs[i].id,
                 str(before[i][part])[:150], str(after[i][part])[:150]), case)
             break
-    fresh_reply, _, _ = impl.run_asm(op)
+    fresh_reply, _, _ = impl.run_asm(op, entities=scalar(impl.build_entities(op[3], op[4])))
     fresh = outcome(fresh_reply)
     for i, r in enumerate(replies):
         if r != fresh:
@@ -191,7 +211,7 @@ def check_case(ctx, case):
     if fresh[0] == "err" and case.get("fixed"):
         fop = asm.asm_op(case["fixed"])
         # reuse the record objects that took part in the failed call
-        fents = impl.build_entities(fop[3], fop[4])
+        fents = scalar(impl.build_entities(fop[3], fop[4]))
         r1, _, _ = impl.run_asm(fop, entities=fents)
         shared = {}
         for e in [op[3]] + list(op[4]):
@@ -212,7 +232,8 @@ def check_case(ctx, case):
     ctx.note("outcome:" + (fresh[0] if fresh[0] == "ok" else fresh[1].split(":")[0]))
     ctx.case({k: v for k, v in case.items() if k not in ("info", "fixed")}, nontrivial=True,
              key=[fresh[0] if fresh[0] == "ok" else fresh[1].split(":")[0], len(case["mods"]), cites, case.get("mode")])
-    ctx.op(op, None, reply=fresh_reply)
+    if not case.get("scalar_citation"):
+        ctx.op(op, None, reply=fresh_reply)      # (a scalar /citation is outside the model's records: oracle only)
 
 
 def run(ctx):
@@ -240,5 +261,7 @@ def run(ctx):
         if case["mode"] in ("invalid-vector", "fault-vector", "bad-citation"):
             fixed = None
         case["fixed"] = fixed
+        case["scalar_citation"] = rng.random() < 0.1
+        case["interrupt"] = case["mode"] in ("fault", "fault-vector") and rng.random() < 0.5
         case["calls"] = rng.choice([2, 2, 3])
         ctx.guard(check_case, case)
